@@ -47,7 +47,20 @@ def literal_affixes(pattern):
 def run(cx):
     fb = cx.mir("signedsource")
     fns = [f for f in fb.fns.values() if "::tests::" not in f.id]
-    sign = fb.one(r"^signedsource::sign$")
+    # the private helpers are found by role, so that renaming them (two of them share a signature) changes nothing:
+    # `hash` = the function feeding a digest, `sign` = the function that calls it and substitutes the token
+    ss = [f for f in fb.fns.values() if f.crate == "signedsource" and not f.root and "::tests::" not in f.id and "tests.rs" not in f.file]
+    hcand = [f for f in ss if any(re.search(r"Update>?::update$|Digest>?::update$", (t.declared or "") + (t.callee or "")) for t in f.calls())]
+    if len(hcand) != 1:
+        raise AnchorError("signedsource: expected one function feeding a digest, found %s" % [f.id for f in hcand])
+    H = hcand[0]
+    HRX = "^" + re.escape(H.id) + "$"
+    scand = [f for f in ss if f.j.get("vis") != "pub" and any(t.callee == H.id for t in f.calls()) and any(
+        re.search(r"<impl str>::replace$", t.callee or "") for t in f.calls())]
+    if len(scand) != 1:
+        raise AnchorError("signedsource: expected one private function that hashes and substitutes the token, found %s" % [f.id for f in scand])
+    sign = scand[0]
+    SRX = "^" + re.escape(sign.id) + "$"
     ver = fb.one(r"^signedsource::is_valid_signature$")
     # ---- R33.multiplicity ---------------------------------------------------
     s_rep = [t for t in sign.calls() if re.search(r"<impl str>::(replace|replacen|replace_range)$", t.callee or "")]
@@ -61,14 +74,14 @@ def run(cx):
           "token twice signs but never verifies" % ("every" if s_all else "one", "every" if v_all else "only the first"),
           ver.loc(v_rep[0].line))
     # ---- R33.hash-covers-input ------------------------------------------------
-    hs = [t for t in sign.calls() if term_calls(t, r"^signedsource::hash$")]
+    hs = [t for t in sign.calls() if t.callee == H.id]
     ok = len(hs) == 1 and (op_place(hs[0].args[0]) is not None) and (
         op_place(hs[0].args[0]).local == 1 or local_flows_from(sign, op_place(hs[0].args[0]).local, lambda d: hasattr(d, "rv") and any(
             p.local == 1 for p in d.reads()), 4) is not None)
     cx.ob("R33.hash-covers-input", sign.id + "|hashes-whole-input", ok,
           "the signature must be the hash of the whole file text", sign.loc())
     # the replacement text contains the hash
-    hv = [t for t in ver.calls() if term_calls(t, r"^signedsource::hash$")]
+    hv = [t for t in ver.calls() if t.callee == H.id]
     ok = len(hv) == 1 and local_flows_from(ver, op_place(hv[0].args[0]).local, lambda d: d is v_rep[0], 8) is not None
     a0 = op_place(v_rep[0].args[1])
     ok = ok and a0 is not None and (a0.local == 1 or local_flows_from(ver, a0.local, lambda d: hasattr(d, "rv") and any(
@@ -79,7 +92,7 @@ def run(cx):
     cx.ob("R33.hash-covers-input", ver.id + "|compares-digest", len(eqs) >= 1,
           "the recomputed digest must be compared with the embedded one", ver.loc())
     # every function hashing uses md5 over the data argument
-    h = fb.one(r"^signedsource::hash$")
+    h = H
     upd = [t for t in h.calls() if re.search(r"Update>?::update$|Digest>?::update$", t.declared or t.callee or "")]
     import samesrc
     pr = samesrc.producer(h, op_place(upd[0].args[1]).local) if len(upd) == 1 and op_place(upd[0].args[1]) is not None else None
@@ -123,7 +136,7 @@ def run(cx):
     # try_sign_file signs exactly when the token is present
     ts = fb.one(r"^signedsource::try_sign_file$")
     cont = [t for t in ts.calls() if re.search(r"<impl str>::contains$", t.callee or "")]
-    sg = blocks_calling(ts, r"^signedsource::sign$")
+    sg = blocks_calling(ts, SRX)
     ok = False
     if len(cont) == 1 and sg:
         tt, ft = call_bool_branch(ts, cont[0])
@@ -132,7 +145,7 @@ def run(cx):
         # `data.contains(TOKEN).then(|| sign(data))`: the closure runs exactly when the test is true
         thens = [t for t in ts.calls() if re.search(r"bool>?::then$|<impl bool>::then$", t.callee or "") and op_place(t.args[0]) is not None
                  and local_flows_from(ts, op_place(t.args[0]).local, lambda d: d is cont[0], 4) is not None]
-        cl_sign = [c for c in fb.closures_of(ts) if blocks_calling(c, r"^signedsource::sign$")]
+        cl_sign = [c for c in fb.closures_of(ts) if blocks_calling(c, SRX)]
         ok = len(thens) == 1 and len(cl_sign) == 1
     cx.ob("R33.multiplicity", ts.id + "|signs-iff-token-present", ok,
           "try_sign_file must sign exactly when the signing token is present", ts.loc())
